@@ -254,6 +254,7 @@ pub fn err_kind(t: &str) -> String {
         "Can't assign to that" => return "cantAssignTo".to_string(),
         "'!' can only be applied on boolean expressions." => return "notNonBoolean".to_string(),
         "Result of '/' is NaN" => return "divideNaN".to_string(),
+        "Result of '%' is undefined (division by zero)" => return "remUndefined".to_string(),
         "'>' supports only numeric or string types" => return "greaterUnsupported".to_string(),
         "Illegal Result: Can't return array" => return "illegalResultArray".to_string(),
         "Illegal Result: Can't return maps" => return "illegalResultMap".to_string(),
